@@ -156,8 +156,8 @@ PROPS = {
     "C13": dict(
         domains=[("smclient", "wd", 400, 6000), ("smserver", "hist", 800, 10000)],
         relevant=["C13:"],
-        theorems=["DV.Props.C13."+t for t in ["C13_bound","C13_ack_not_lost","C13_responsive","C13_silent","C13_failure_dwa_ignored","C13_drained","C13_lost_ack_counterexample","C13_dwa","C13_gen"]],
-        gen_obligations=["Gen.capDwac","Gen.dwrDrainsFirst","Gen.dwaSendNonBlocking","Gen.dwrMakeDWR","Gen.dwrWrites","Gen.dwrCloses","Gen.dwrLoopCond"],
+        theorems=["DV.Props.C13."+t for t in ["C13_bound","C13_ack_not_lost","C13_responsive","C13_silent","C13_failure_dwa_ignored","C13_drained","C13_lost_ack_counterexample","C13_dwa","C13_answers_by_connection","C13_latest_handshake_counterexample","C13_gen"]],
+        gen_obligations=["Gen.handshakeAnswerHandlers","Gen.capDwac","Gen.dwrDrainsFirst","Gen.dwaSendNonBlocking","Gen.dwrMakeDWR","Gen.dwrWrites","Gen.dwrCloses","Gen.dwrLoopCond"],
         trusted=CLIENT_TRUST,
     ),
     "C18": dict(
